@@ -130,7 +130,7 @@ func VerifC07_main() {
 	d.main()
 	vReach("returned")
 	vAssert(vAnd(vIsClosed(d.output), vIsClosed(d.err), vIsClosed(d.feedback)), "C07/C19: main closes output, err and feedback")
-	vAssert(vTickerStops() == 1, "C19: the interrupter ticker is stopped when main returns")
+	vAssert(vTickersRunning() == 0, "C19: the interrupter ticker is not left running when main returns")
 	if e.faultSeen {
 		vAssert(len(d.err) == 1, "C15: exactly one error value is reported")
 		v, ok := <-d.err
